@@ -13,7 +13,8 @@ Read by IMPORTING the modules in /venv/bin/python (values, never source layout):
       correspondence run (token-by-token comparison of the real header strings).
 
 Anything unexpected raises TranslatorError (the check then counts the obligations as broken).
-The source root is $AV_C12_SRC (default /repo/src) so the check can be tried on a mutated scratch copy.
+The tree under test is $AV_REPO (default /repo), source root $AV_REPO/src, so the check can be tried on a
+mutated scratch worktree.
 """
 import ast
 import json
@@ -31,7 +32,7 @@ class TranslatorError(RuntimeError):
 
 
 def src_root():
-    return os.environ.get("AV_C12_SRC", "/repo/src")
+    return os.path.join(os.environ.get("AV_REPO", "/repo"), "src")
 
 
 def _need(cond, msg):
@@ -182,7 +183,7 @@ def render(src=None):
     _need(("snappy" in installed) == d["have_snappy"], "registry/snappy availability mismatch")
     code = {"deflate": "XDeflate", "bzip2": "XBzip2", "brotli": "XBrotli", "snappy": "XSnappy"}
     out = []
-    out.append("(* GENERATED by translators/pmce_consts.py from %s -- do not edit, never committed. *)" % src)
+    out.append("(* GENERATED by translators/pmce_consts.py from the tree under test ($AV_REPO/src) -- do not edit, never committed. *)")
     out.append("From Coq Require Import ZArith List String.")
     out.append("Import ListNotations.")
     out.append("Inductive ext := XDeflate | XBzip2 | XBrotli | XSnappy.")
